@@ -67,7 +67,11 @@ def r1_arguments_refuse_unknown(ctx):
         for st in sts:
             t = st.targets[0]
             okk = dotted(t.slice) == k and dotted(st.value) == f.params[2]
-            ok = _dominating_raise_guard(ctx, f, st, lambda test: norm(test) == f"{k} not in self._arguments")
+            # whatever the spelling (guard clause, if/else, negated test): where the store executes the key is
+            # known to be an argument, and a path on which it is not ends in a raise
+            from sa.astutil import knows, raise_conditions
+
+            ok = knows(enclosing_tests(st, rejections=True), f"{k} in self._arguments", True) and any(knows(cs, f"{k} in self._arguments", False) for _r, cs in raise_conditions(f))
             ctx.check(ok and okk, f.qual, "unknown key raises before the store" if ok and okk else ("an unknown argument name is stored silently (guard missing or bypassable)" if okk else f"stores {norm(st)}"), where=f, node=st)
     for m in ("__getitem__", "__getattr__"):
         f = ci.methods.get(m)
@@ -75,10 +79,12 @@ def r1_arguments_refuse_unknown(ctx):
             raise AnalysisError(f"Arguments.{m} not found")
         k = f.params[1]
         g = ctx.cfg(f)
-        guards = [i for i in raising_ifs(f.node) if norm(i.test) == f"{k} not in self._arguments"]
+        from sa.astutil import knows, raise_conditions
+
         rets = [r for r in returns_of(f) if r.value is not None and norm(r.value) == f"self._arguments[{k}]"]
-        ok = bool(guards) and bool(rets) and all(g.must_precede([n for i in guards for n in g.nodes_of(i)], n) for r in rets for n in g.nodes_of(r))
-        ctx.check(ok, f.qual, "unknown key raises" if ok else "reading an unknown argument does not raise", where=f, node=guards[0] if guards else f.node)
+        raising = [r_ for r_, cs in raise_conditions(f) if knows(cs, f"{k} in self._arguments", False)]
+        ok = bool(raising) and bool(rets) and all(knows(enclosing_tests(r, rejections=True), f"{k} in self._arguments", True) for r in rets)
+        ctx.check(ok, f.qual, "unknown key raises" if ok else "reading an unknown argument does not raise", where=f, node=raising[0] if raising else f.node)
 
 
 def _final_stores(f):
@@ -379,6 +385,13 @@ def r5_assignment_is_local(ctx):
                     val = expand(f, getattr(d.ast, "value", None)) if getattr(d.ast, "value", None) is not None else None
                     txt = norm(val)
                     vp = f.params[2]
+                    if txt in ("[]", "list()"):
+                        # `x = []` filled by an append loop is the comprehension it spells out (sa/astutil.py)
+                        from sa.astutil import accumulator_comp
+
+                        comp_ = accumulator_comp(f.node, vn)
+                        if isinstance(comp_, ast.ListComp):
+                            val, txt = comp_, norm(comp_)
                     good = txt in (vp, f"eval_entry({vp})") or (isinstance(val, ast.ListComp) and norm(val.generators[0].iter) == vp and norm(val.elt) in (f"eval_entry({norm(val.generators[0].target)}) if {norm(val.generators[0].target)} else {norm(val.generators[0].target)}", f"eval_entry({norm(val.generators[0].target)})"))
                     if not good:
                         okv = False
